@@ -15,6 +15,7 @@ non-zero ensemble weight, any tilt (the tilt does not touch the array).
 -/
 import AbtemVerif.Lib.WaveOptics
 import AbtemVerif.Lib.SmallDFT
+import AbtemVerif.Lib.DFT2
 import AbtemVerif.Gen.ProbeR
 import AbtemVerif.Gen.ProbeC
 import AbtemVerif.Gen.FftShiftR
@@ -170,6 +171,19 @@ theorem planewave_normalized [Nonempty ι] (P : FourierPair ι) : energy (P.F (p
 /-- A plane wave built without normalisation has unit modulus at every pixel. -/
 theorem planewave_unit_modulus (j : ι) : Complex.normSq (planeWave (ι := ι) false j) = 1 := by
   simp [planeWave]
+
+/-! ### instantiated at the 2-D DFT (`fft2` on an `n × m` grid) -/
+
+/-- `PlaneWave(normalize=True)` on an `n × m` grid: `Σ|fft2|² = 1` for the concrete 2-D DFT. -/
+theorem planewave_normalized_fft2 (n m : ℕ) [NeZero n] [NeZero m] :
+    energy ((zmodPair2 n m).F (planeWave (ι := ZMod n × ZMod m) true)) = 1 :=
+  planewave_normalized (zmodPair2 n m)
+
+/-- built probes on an `n × m` grid, concrete 2-D DFT, zero-frequency pixel `(0, 0)` -/
+theorem probe_normalized_fft2 (n m : ℕ) [NeZero n] [NeZero m] (kernel : ZMod n × ZMod m → ℂ) (A : ZMod n × ZMod m → ℝ)
+    (w : ℝ) (chi : ZMod n × ZMod m → ℝ) (hk : ∀ k, Complex.normSq (kernel k) = 1) (hA : A (0, 0) ≠ 0) (hw : w ≠ 0) :
+    energy ((zmodPair2 n m).F (probeArray (zmodPair2 n m) kernel A (fun k => aberration w (chi k)))) = 1 :=
+  probe_normalized (zmodPair2 n m) kernel A w chi (0, 0) hk hA hw
 
 /-! ### non-vacuity -/
 
